@@ -2,8 +2,9 @@
 
 // Replay for fixes/C20-vartime-normalize-copy.patch: inside a kyber checkout run
 //     go run -race C20-vartime-normalize-copy.replay.go
-// Unpatched tree: "WARNING: DATA RACE" reports (mod.Int.Inv <- normalize <- MarshalBinary) and usually
-// "N of 1600 results differ from the sequential encoding"; patched tree: no report, "0 of 1600".
+// Unpatched tree: "WARNING: DATA RACE" reports (mod.Int.Inv <- normalize <- MarshalBinary) and then either
+// "N of 1600 results differ from the sequential encoding" or a crash of the corrupted point in encodePoint
+// ("panic: runtime error: slice bounds out of range [-32:]"); patched tree: no report, "0 of 1600".
 package main
 
 import (
